@@ -185,6 +185,7 @@ static CONTROLLED_DRAWS: AtomicU64 = AtomicU64::new(0);
 static TIES_PREDICTED: AtomicU64 = AtomicU64::new(0);
 static TIES_NOT_PREDICTABLE: AtomicU64 = AtomicU64::new(0);
 static REDRAWS: AtomicU64 = AtomicU64::new(0);
+static UNCONTROLLED_DRAWS: AtomicU64 = AtomicU64::new(0);
 
 // How insert_at's new node gets the rank the explorer chose, although the crate draws its priority itself:
 //
@@ -586,14 +587,18 @@ impl System for Sys {
                     }
                     // the draw did not land where it had to (a mispredicted tie, or a value in one of the
                     // end zones): back to the state before the call
+                    if attempts >= 16 && eff % 2 == 1 {
+                        // the code under test does not hand out fresh random priorities (it reuses old
+                        // ones, say): the rank cannot be forced.  Whatever rank came out is still a legal
+                        // state; keep it, counted as uncontrolled
+                        UNCONTROLLED_DRAWS.fetch_add(1, Ordering::Relaxed);
+                        break;
+                    }
                     REDRAWS.fetch_add(1, Ordering::Relaxed);
                     s.slots = backup.iter().map(copy_treap).collect();
                     if eff % 2 == 0 {
                         PRED.with(|p| *p.borrow_mut() = Pred::Lost);
                         eff += 1;
-                    }
-                    if attempts >= 16 {
-                        return Err(format!("insert_at: 16 consecutive priorities drawn inside the end zones [0,{below}) / (u32::MAX-{above}, u32::MAX]"));
                     }
                 }
                 s.models[i].insert(pos, (id, val % 4));
@@ -1823,6 +1828,7 @@ fn main() {
     run.cov("insert_at_ties_with_predicted_draw", TIES_PREDICTED.load(Ordering::Relaxed));
     run.cov("insert_at_ties_not_predictable", TIES_NOT_PREDICTABLE.load(Ordering::Relaxed));
     run.cov("insert_at_calls_repeated", REDRAWS.load(Ordering::Relaxed));
+    run.cov("insert_at_draws_uncontrolled", UNCONTROLLED_DRAWS.load(Ordering::Relaxed));
     run.cov("rule", "BFS over states of up to 3 live treaps with at most N nodes (values in {0,1}, lazy add-1 / assign-0 tags over Z3), every action in every reached state: New at every priority rank (strictly between or tied with live levels), Merge of every ordered pair, split_at / split_by at every position, insert_at at every position and priority rank (strictly between levels: live priorities are re-spaced to the two ends of the u32 range so that any draw lands at the chosen rank; tied with a level: that level is moved onto the draw predicted by a per-thread copy of the crate's generator), remove_at, Apply of each modification at the root, first/last/collect/size/root, merge with an empty treap; parts without depth_bound run to closure; state identity = pre-order (priority rank, value, size, tag, aggregate) per treap, treaps sorted");
     run.assume("the harness item (value, size, word aggregate, affine tag) is a lawful TreapItem; a node without children does not record a pending tag (nothing can read it)");
 
